@@ -31,6 +31,11 @@
      outside the union of target foci changed; C04_morphism_inverse_total: Inverse after Forward never panics.
      H2 is necessary: C04_morphism_needs_disjoint_targets is a two-iso list satisfying H1 (C04_witness_entries_ok) whose
      entries differ and share a target focus (C04_witness_targets_overlap) and whose round trip changes the source.
+   Beyond DESIGN 3/C04: C04_morphism_transport - Forward (s, t) then Inverse (t, s2) into ANOTHER source structure s2
+   gives every source focus of s2 the bytes it has in s and leaves every other byte of s2 alone (what the harness
+   observes), for source optics that are focused and [transports] (putting the value read from m into m2 copies the
+   focus bytes: C04_window_transports, C04_chain_transports, C04_bimap_transports, C04_join_transports); H2 as above,
+   and again no disjointness of source foci.
    (Assembled by tools/scripts/gen_properties.py from tools/scripts/properties_src/C04.v.in.) *)
 From Coq Require Import List String Bool Arith ZArith.
 From Golem Require Import Optics.GenPrelude Optics.LayoutFacts Optics.HseqFacts Optics.LensFacts Optics.CombFacts Optics.FocusFacts
@@ -195,6 +200,40 @@ Theorem C04_morphism_inverse_total : forall (nof : iso -> nat) (tfp : iso -> lis
   forall w w1, morphism_forward seq w = Ok w1 -> morphism_inverse seq w1 = Ok w1.
 Proof. exact morphism_inverse_total. Qed.
 Print Assumptions C04_morphism_inverse_total.
+
+(* .. and the way back into ANOTHER source structure m2 of the same size: every byte of a source focus becomes that of
+   the original source, every other byte of m2 stays, so every source optic reads from it what it read from the original *)
+Theorem C04_morphism_transport : forall (nof : iso -> nat) (sfp tfp : iso -> list (nat * nat)) seq,
+  (forall i, In (Some i) seq ->
+     focused (i_sa i) (nof i) (sfp i) /\ transports (i_sa i) (sfp i) /\ focused (i_ta i) (nof i) (tfp i)) ->
+  (forall i j, In (Some i) seq -> In (Some j) seq -> i = j \/ disjoint_fp (tfp i) (tfp j)) ->
+  forall w w1 m2 w2, List.length m2 = List.length (ms w) ->
+  morphism_forward seq w = Ok w1 -> morphism_inverse seq (mkTwo m2 (ps w) (mt w1) (pt w1)) = Ok w2 ->
+  mt w2 = mt w1 /\ List.length (ms w2) = List.length m2 /\
+  (forall k, inside (flat_map sfp (isos seq)) (ps w) k -> nth_error (ms w2) k = nth_error (ms w) k) /\
+  (forall k, outside (flat_map sfp (isos seq)) (ps w) k -> nth_error (ms w2) k = nth_error m2 k) /\
+  (forall i, In (Some i) seq -> oget (i_sa i) (ms w2) (ps w) = oget (i_sa i) (ms w) (ps w)).
+Proof. exact morphism_transport. Qed.
+Print Assumptions C04_morphism_transport.
+
+Theorem C04_window_transports : forall o off n, window o off n -> transports o [(off, n)].
+Proof. exact window_transports. Qed.
+Print Assumptions C04_window_transports.
+
+Theorem C04_chain_transports : forall o, is_chain o = true -> transports o (footprint o).
+Proof. exact chain_transports. Qed.
+Print Assumptions C04_chain_transports.
+
+Theorem C04_bimap_transports : forall o f g nA fp, lawful o nA -> (forall a, List.length a = nA -> g (f a) = a) ->
+  transports o fp -> transports (BiMap o f g) fp.
+Proof. exact bimap_transports. Qed.
+Print Assumptions C04_bimap_transports.
+
+Theorem C04_join_transports : forall a b offA nA fpB, window a offA nA -> transports b fpB ->
+  (forall r, In r fpB -> fst r + snd r <= nA) ->
+  transports (Join a b) (map (fun r => (offA + fst r, snd r)) fpB).
+Proof. exact join_transports. Qed.
+Print Assumptions C04_join_transports.
 
 (* ---- a sequence of component puts (what shapeN.Put is, see C04_shapeN_nfold below): with pairwise disjoint component
         foci every component reads back its own argument and no byte outside the union of the foci changes ------------ *)
@@ -588,6 +627,14 @@ Example C04_ex_morphism_roundtrip : forall w1 w2,
   morphism_forward r_seq w_start = Ok w1 -> morphism_inverse r_seq w1 = Ok w2 ->
   ms w2 = ms w_start /\ mt w2 = mt w1 /\ (forall k, 16 <= k -> nth_error (mt w2) k = nth_error (mt w_start) k).
 Proof. exact r_seq_roundtrip. Qed.
+
+(* .. and so do the hypotheses of C04_morphism_transport; the way back into a structure full of 9s copies A and B *)
+Example C04_ex_morphism_transport :
+  (forall i, In (Some i) r_seq -> focused (i_sa i) 8 (footprint (i_sa i)) /\ transports (i_sa i) (footprint (i_sa i)) /\
+                                  focused (i_ta i) 8 (footprint (i_ta i))) /\
+  (exists w1 w2, morphism_forward r_seq w_start = Ok w1 /\
+     morphism_inverse r_seq (mkTwo (repeat 9%Z 16) (ps w_start) (mt w1) (pt w1)) = Ok w2 /\ ms w2 = ms w_start).
+Proof. exact (conj r_seq_transport_ok r_seq_transport_runs). Qed.
 
 (* the hypotheses of C04_shape2_nfold hold for the lenses ForShape2 derives on KAB *)
 Example C04_ex_shape2_hyps : exists lens,
